@@ -13,6 +13,11 @@ Panics(e, f) == f \notin DOMAIN e /\ \E i \in DOMAIN e.pan : e.pan[i] = f
 \* call f returned v, or panicked when  p  holds
 EqOrPanic(e, f, p, v) == IF p THEN Panics(e, f) ELSE Eq(e, f, v)
 
+\* union of two check records (functions from call names to BOOLEAN)
+\* (LET-bound so that TLC evaluates each argument once, not once per field)
+Merge(f, g) == LET ff == f  gg == g
+               IN [x \in (DOMAIN ff) \cup (DOMAIN gg) |-> IF x \in DOMAIN ff THEN ff[x] ELSE gg[x]]
+
 None == <<>>
 Some(v) == <<v>>
 \* Option from an overflow flag
